@@ -554,8 +554,19 @@ struct ExactBuf {
     T* p     = nullptr;
     size_t n = 0;
 
+    static auto allocate(size_t count) -> T*
+    {
+        size_t const bytes = count == 0 ? 1 : count * sizeof(T);
+        if constexpr (alignof(T) > 16) {
+            // over-aligned element types: malloc only guarantees alignof(max_align_t)
+            return static_cast<T*>(std::aligned_alloc(alignof(T), (bytes + alignof(T) - 1) / alignof(T) * alignof(T)));
+        } else {
+            return static_cast<T*>(std::malloc(bytes));
+        }
+    }
+
     explicit ExactBuf(size_t count)
-        : p(static_cast<T*>(std::malloc(count == 0 ? 1 : count * sizeof(T))))
+        : p(allocate(count))
         , n(count)
     {
         // with count == 0 the one allocated byte is never part of a valid range
